@@ -481,6 +481,16 @@ class CallMixin:
                              z3.And(f(s.t) >= 0, z3.Implies(z3.Exists([i], z3.And(rng, unI(Q.At(s.t, i)) > 0)), f(s.t) > 0), f(s.t) <= Q.Length(s.t) * 1 + 0 if False else f(s.t) >= 0)))
         return S_int(f(s.t))
 
+    def b_map(self, node, st):
+        """map(f, xs): a sequence of the same length whose elements are an uninterpreted function of (f, element)"""
+        if len(node.args) != 2:
+            raise Unsupported("map arity")
+        f = self.eval(node.args[0], st)
+        view = self.iter_view(self.eval(node.args[1], st), st, node)
+        fb = box(f, st)
+        ap = uf("map_apply", V, V, V)
+        return Sym("pyobj", None, None, ("iterview", IterView(view.length, lambda k, st_: S_val(ap(fb, box(view.get(k, st_), st_))), None, VAL)))
+
     def b_iter(self, node, st):
         return self.eval(node.args[0], st)
 
@@ -635,6 +645,7 @@ class CallMixin:
 
     def str_method(self, base, meth, node, st):
         args, kwargs = self.eval_args(node, st)
+        args = [self.materialise(a, st, node) if (not isinstance(a, tuple) and a.kind == "pyobj" and a.py[0] == "iterview") else a for a in args]
         flat = [base.t] + [box(a, st) for a in args]
         res = {"startswith": Spec("bool"), "endswith": Spec("bool"), "isidentifier": Spec("bool"), "isdigit": Spec("bool"),
                "index": Spec("int"), "find": Spec("int"), "count": Spec("int"),
